@@ -12,6 +12,19 @@ pub const PACKAGES: &[&[&str]] = &[&["a"], &["a", "b"], &["p", "q"], &["other", 
 // `Array` is also the synthetic name the tree gives to array types
 pub const ITEM_NAMES: &[&str] = &["Foo", "XFoo", "FooX", "Bar", "IFoo", "Foo2", "Array"];
 pub const BUILTIN_SIMPLE: &[&str] = &["IBinder", "FileDescriptor", "ParcelFileDescriptor", "ParcelableHolder"];
+/// a built-in's simple name under ANOTHER package (the other built-in package, a prefix, a suffix, a longer one, other case):
+/// ordinary names, whatever they look like
+pub const BUILTIN_NEAR_QUALIFIED: &[&str] = &[
+    "java.os.IBinder",
+    "java.os.ParcelFileDescriptor",
+    "java.os.ParcelableHolder",
+    "android.os.FileDescriptor",
+    "android.IBinder",
+    "os.ParcelFileDescriptor",
+    "android.os.x.IBinder",
+    "Android.os.ParcelableHolder",
+    "java.io.FileDescriptor",
+];
 pub const BUILTIN_QUALIFIED: &[&str] = &[
     "android.os.IBinder",
     "java.os.FileDescriptor",
@@ -53,6 +66,9 @@ impl TypePool {
             customs.push(vec![(*b).to_owned()]);
         }
         for b in BUILTIN_QUALIFIED {
+            customs.push(split(b));
+        }
+        for b in BUILTIN_NEAR_QUALIFIED {
             customs.push(split(b));
         }
         for p in PACKAGES {
@@ -323,7 +339,13 @@ pub fn gen_document(rng: &mut Rng, cfg: &DocCfg) -> Doc {
 pub fn gen_import(rng: &mut Rng, project_keys: &[String]) -> Vec<String> {
     match rng.below(10) {
         0..=4 if !project_keys.is_empty() => split(rng.pick(project_keys).as_str()),
-        5 => split(*rng.pick(BUILTIN_QUALIFIED)),
+        5 => {
+            if rng.chance(1, 3) {
+                split(*rng.pick(BUILTIN_NEAR_QUALIFIED))
+            } else {
+                split(*rng.pick(BUILTIN_QUALIFIED))
+            }
+        }
         6 => split(*rng.pick(&["z.Nope", "a.b.Missing", "q.Foo", "a.Unknown", "x.IBinder"])),
         // something INSIDE a project item (a nested name): not a key, whatever the project holds
         7 if !project_keys.is_empty() => {
@@ -365,7 +387,7 @@ pub fn gen_project(rng: &mut Rng, cfg: &DocCfg) -> Vec<(String, Doc)> {
         if rng.chance(1, 12) {
             // ... or even its full qualified name: the project defines `android.os.IBinder` itself
             // (a key that is both a project item and a built-in, importable like any other)
-            let mut q = split(*rng.pick(BUILTIN_QUALIFIED));
+            let mut q = if rng.chance(1, 3) { split(*rng.pick(BUILTIN_NEAR_QUALIFIED)) } else { split(*rng.pick(BUILTIN_QUALIFIED)) };
             let n = q.pop().unwrap();
             headers.push((q, n, gen_kind(rng)));
             continue;
